@@ -508,11 +508,13 @@ def run_check(ctx, spec, replay):
             # search: something broke but no concrete property failure yet -> widen
             if (ctx.broken or ctx.mismatches) and not ctx.violations and not replay:
                 log('-- something no longer checks; searching for a concrete failing input (wider budgets, more seeds)')
+                t_search = time.time()
+                budget = spec.get('search_budget_s', 300)
                 for r in spec['runs']:
                     for k in range(spec.get('search_seeds', 3)):
-                        if ctx.violations:
+                        if ctx.violations or time.time() - t_search > budget:
                             break
-                        run_one(ctx, exe, r, ctx.seed * 1000 + 17 * k + 1, 'thorough', 'search%d' % k)
+                        run_one(ctx, exe, r, ctx.seed * 1000 + 17 * k + 1, spec.get('search_tier', 'thorough'), 'search%d' % k)
     for hook in spec.get('post', []):
         hook(ctx)
     # 4 classify
